@@ -147,7 +147,8 @@ Proof. unfold test_part, rule_test_writes; cbn [map concat app]. rewrite app_nil
 
 Lemma runtime_key_effective cfg ts :
   runtime_key (effective cfg ts)
-  = (concat (ts_rule ts) ++ fst (get_command cfg (ts_cmds ts)), map file_stream (runtime_files (ts_files ts))).
+  = (concat (ts_rule ts) ++ fst (get_command cfg (ts_cmds ts)),
+     combine_files files_combine (map file_stream (runtime_files (ts_files ts)))).
 Proof. unfold runtime_key, effective; cbn [t_rule t_files]. rewrite concat_app, test_part_stream; reflexivity. Qed.
 
 (* an edit of the commands of INACTIVE configs (any number of them, entries added or removed) changes
